@@ -31,6 +31,11 @@ pub fn plan(tier: &str, seed: u64) -> Vec<Batch> {
             v.push(Batch { check: "C07".into(), phase: "creation".into(), uni: uni.clone(), seed, lo: 2_000_000 + ctor * 1000, hi: 2_000_000 + ctor * 1000 + 1, fresh: false, tier: tier.into(), extra: json!({"ctor": ctor}) });
         }
     }
+    // a descriptor that appears while open_follow("fd/N") runs (another thread of the caller's
+    // process opening a file): every window
+    for uni in [UniCfg::k(), UniCfg::e()] {
+        v.push(Batch { check: "C07".into(), phase: "racing-fd".into(), uni: uni.clone(), seed, lo: 3_000_000, hi: 3_000_000 + racing_fd_cases().len() as u64, fresh: false, tier: tier.into(), extra: Value::Null });
+    }
     // every entry of the live procfs (root, self, self/fd, self/ns, self/task/<tid>, part of self/net)
     for uni in [UniCfg::k(), UniCfg::e()] {
         for ctor in 0..3u64 {
@@ -125,6 +130,81 @@ pub fn creation_cases(uni: &UniCfg, ctor: u64) -> Vec<Case> {
         cases.push(c);
     }
     cases
+}
+
+/// (constructor, base, flags) of the racing-descriptor phase
+pub fn racing_fd_cases() -> Vec<(Option<crate::ops::ProcCtor>, Base, i32)> {
+    let mut v = Vec::new();
+    for ctor in [None, Some(crate::ops::ProcCtor::New), Some(crate::ops::ProcCtor::FromFsopen), Some(crate::ops::ProcCtor::FromPlainOpen)] {
+        for base in [Base::SelfP, Base::ThreadSelf] {
+            for flags in [libc::O_PATH, libc::O_RDONLY | libc::O_NONBLOCK] {
+                v.push((ctor, base, flags));
+            }
+        }
+    }
+    v
+}
+
+const RACING_FD: i32 = 150;
+
+fn run_racing_fd(u: &mut Universe, b: &Batch, idx: u64, st: &mut Stats) -> bool {
+    let (ctor, base, flags) = racing_fd_cases()[(idx - b.lo) as usize % racing_fd_cases().len()];
+    let mk = |script: Vec<crate::sup::Dec>| {
+        let mut c = Case::new("C07", "racing-fd", b.uni.clone());
+        let mut ops = vec![OpSpec::new(Op::Resolve { path: "wl/f".into(), nofollow: false }).store(1)];
+        let handle = ctor.map(|ct| {
+            ops.push(OpSpec::new(Op::ProcNew { ctor: ct, store: 0 }));
+            0usize
+        });
+        let mut o = OpSpec::new(Op::ProcOpen { handle, base, path: format!("fd/{RACING_FD}"), flags, follow: true });
+        if handle.is_none() {
+            o = o.c();
+        }
+        ops.push(o);
+        c.world = Some(warm_world());
+        c.jobs = vec![ops];
+        c.plan.script = script;
+        c.extra = json!({"ctor": format!("{ctor:?}")});
+        c
+    };
+    let base_case = mk(vec![]);
+    let target = base_case.jobs[0].len() - 1;
+    let out0 = run_case(u, &base_case, &mut crate::sup::NoHooks, false);
+    if let Some(e) = &out0.harness_error {
+        st.harness_errors.push(format!("racing-fd {idx}: {e}"));
+        return false;
+    }
+    let wins: Vec<usize> = out0.trace.iter().filter(|e| e.lib && e.op == Some(target) && e.nr != crate::seam::HYPERCALL_NR && e.nr != libc::SYS_futex).map(|e| e.step).collect();
+    for w in wins {
+        let case = mk(vec![crate::sup::Dec { step: w, attack: vec![crate::world::Mutation::Dup3Slot { slot: 1, newfd: RACING_FD }], ..Default::default() }]);
+        let out = run_case(u, &case, &mut crate::sup::NoHooks, false);
+        if let Some(e) = &out.harness_error {
+            st.harness_errors.push(format!("racing-fd {idx}@{w}: {e}"));
+            return false;
+        }
+        st.evaluations += 1;
+        st.merge_runout(&out);
+        st.nontrivial.insert(case.hash() ^ w as u64);
+        st.count("racing_fd.windows", 1);
+        if let Some(r) = out.records.iter().find(|r| r.idx == target) {
+            st.count(&format!("racing_fd.outcome.{}", r.outcome.class().split(':').take(3).collect::<Vec<_>>().join(":")), 1);
+            let bad = match (&r.outcome, &r.facts) {
+                // the call may fail (the descriptor was not there when it looked) or follow the new
+                // link; what it must never do is hand out the link itself
+                (Outcome::Fd(_), Some(f)) if f.ftype == libc::S_IFLNK => Some(("follow-returned-the-link-itself", format!("open_follow(\"fd/{RACING_FD}\", {flags:#o}) returned the magic-link {} itself; the descriptor appeared at step {w} of the call", f.path))),
+                (Outcome::Panic(m), _) => Some(("panic", m.clone())),
+                _ => None,
+            };
+            if let Some((clause, detail)) = bad {
+                let v = mk_violation(&case, &out, "C07", clause, "proc_open_follow", detail);
+                st.violation(&v);
+            }
+        }
+        if u.poisoned {
+            return false;
+        }
+    }
+    true
 }
 
 pub fn live_cases(uni: &UniCfg, ctor: u64, tid: i32) -> Vec<Case> {
@@ -464,6 +544,15 @@ pub fn u_tid(u: &Universe) -> i32 {
 pub fn run(u: &mut Universe, b: &Batch, st: &mut Stats) {
     if let Err(e) = warm_up(u) {
         st.harness_errors.push(format!("warm-up: {e}"));
+        return;
+    }
+    if b.phase == "racing-fd" {
+        for idx in b.lo..b.hi {
+            coord::progress(idx);
+            if !run_racing_fd(u, b, idx, st) {
+                return;
+            }
+        }
         return;
     }
     if b.phase == "creation" {
